@@ -268,7 +268,15 @@ def g_comment(rng):
     if b.startswith("/"):
         b = " " + b
     t = "/*" + b + "*/"
-    return lex("comment", t, "COMMENT", t)
+    return lex("comment", t, "COMMENT", resolve_scan(t))
+
+
+HEXESC = re.compile(r"\\([0-9a-fA-F]{1,6})(\r\n|[ \t\r\n\f])?")
+
+
+def resolve_scan(t):
+    """hex escapes of a text that has no element structure (comments): left-to-right, non-overlapping"""
+    return HEXESC.sub(lambda m: chr(int(m.group(1), 16)) if int(m.group(1), 16) <= MAXUNI else m.group(0), t)
 
 
 URLCH = "!#$%&*+,-./0123456789:;<=>?@ABCDEFGHIJKLMNOPQRSTUVWXYZ[]^_`abcdefghijklmnopqrstuvwxyz{|}~(\t"
@@ -379,6 +387,9 @@ def ratio_risk(tail):
     return t[:1] != "" and t[:1] in DIG
 
 
+RATIO_RULE = [True]
+
+
 def ok_follow(lx, tail):
     """may `tail` (the text of the following lexemes) directly follow the lexeme without merging?"""
     k, h = lx["kind"], tail[:1]
@@ -404,7 +415,7 @@ def ok_follow(lx, tail):
     if k == "number":
         if nmstartish(h) or (h and h in "%."):
             return False
-        if lx["text"].isascii() and lx["text"].isdigit() and ratio_risk(tail):
+        if RATIO_RULE[0] and lx["text"].isascii() and lx["text"].isdigit() and ratio_risk(tail):
             return False
         return True
     if k == "urange":
@@ -479,17 +490,13 @@ def features(ls):
         rest = "".join(x["text"] for x in ls[i + 1:])
         for j, e in enumerate(els):
             nxt = (render(els[j + 1:]) + (l.get("q", "") if l["kind"] in ("string",) else "") + rest)[:1]
-            if e[0] == "L" and e[1] == "\\" and l["kind"] != "atkw" and nxt and nxt in HEXD:
+            if e[0] == "L" and e[1] == "\\" and not l["ty"].endswith("_SYM") and nxt and nxt in HEXD:
                 f.add("escaped-backslash-before-hexdigit")
             if l["kind"] == "string" and j + 1 < len(els) and els[j + 1][0] == "H":
                 n2 = int(els[j + 1][1], 16)
-                if (e[0] == "H" and int(e[1], 16) == 0x5c and n2 in (10, 12, 13)) or (e == ("N", "\r") and n2 == 10) \
-                        or (list(e) == ["N", "\r"] and n2 == 10):
+                bsl = (e[0] == "H" and int(e[1], 16) == 0x5c) or (e[0] == "L" and e[1] == "\\")
+                if (bsl and n2 in (10, 12, 13)) or (e[0] == "N" and e[1] == "\r" and n2 == 10):
                     f.add("cleanstring-rereads-resolved-escape")
-            if l["kind"] == "uri" and l.get("unquoted") and e[0] == "L" and e[1] == ")":
-                f.add("escaped-paren-in-unquoted-url")
-        if l["kind"] == "comment" and re.search(r"\\[0-9a-fA-F]", l["text"]):
-            f.add("hex-escape-in-comment")
         if l["kind"] == "number" and l["text"].isdigit() and ratio_risk(rest):
             f.add("number-slash-number-paren")
     return sorted(f)
@@ -547,14 +554,25 @@ def impl_fails(ls):
     return impl_tokens("".join(l["text"] for l in ls)) != expected(ls)
 
 
+REPORTED = set()
+
+
 def report(ctx, ls, got):
-    ls = shrink(ls, impl_fails)
+    if "number-slash-number-paren" in features(ls):
+        RATIO_RULE[0] = False     # the known RATIO family: shrink inside the family
+    try:
+        ls = shrink(ls, impl_fails)
+    finally:
+        RATIO_RULE[0] = True
     text = "".join(l["text"] for l in ls)
     got = impl_tokens(text)
     d = first_diff(got, expected(ls))
     feats = features(ls)
     what = "token classification differs from the lexeme grammar"
     sig = "features=%s kinds=%s" % (",".join(feats) or "none", ",".join(l["kind"] for l in ls))
+    if text in REPORTED:
+        return
+    REPORTED.add(text)
     ctx.violation(what, {"text": text, "lexemes": [[l["kind"], l["text"], l["ty"], l["val"]] for l in ls],
                          "got": got, "first_difference": d, "features": feats}, sig_text=sig)
 
@@ -633,7 +651,13 @@ def gen_sequences(ctx, thorough):
                     break
     n_pairs = len(seqs) - n_single
     # 2. random sequences of generated lexemes
-    nrand = 150000 if thorough else 12000
+    # 2a. NUMBER '/' NUMBER ')' (the RATIO production, a known finding): a few explicit sequences
+    for _ in range(12):
+        w = lambda: [lex("ws", " ", "S", " ")] if rng.random() < 0.4 else []  # noqa
+        a, b2 = str(rng.randint(0, 99)), str(rng.randint(0, 99))
+        seqs.append([lex("ident", "x", "IDENT", "x", open_hex=0), lex("ws", " ", "S", " "), lex("number", a, "NUMBER", a)] + w() +
+                    [lex("delim", "/", "CHAR", "/")] + w() + [lex("number", b2, "NUMBER", b2), lex("delim", ")", "CHAR", ")")])
+    nrand = 450000 if thorough else 12000
     for _ in range(nrand):
         k = rng.randint(1, 6)
         ls = join(rng, [rng.choice(GEN_TABLE)(rng) for _ in range(k)])
@@ -677,6 +701,7 @@ def run(ctx):
                           sig_text="features=%s kinds=corpus" % ",".join(c.get("features", [])) or "none")
     # property-level oracle: implementation == classification known by construction
     kinds, nontrivial, skipped, reported = {}, set(), 0, 0
+    REPORTED.clear()
     for ls, got in zip(seqs, impl[nc:]):
         for l in ls:
             kinds[l["kind"]] = kinds.get(l["kind"], 0) + 1
@@ -758,7 +783,13 @@ TRUSTED = [
     "modelled, not verified: Tokenizer.tokenize is a hand-written Gallina transcription (coq/theories/Tokenizer.v)",
 ]
 ASSUME = [
-    "Print Assumptions for every theorem of props/C09.v: see coverage.print_assumptions",
+    "Print Assumptions for every theorem of props/C09.v: see coverage.print_assumptions (all closed)",
     "theorems are stated for fullsheet=False (the observation point of the property) and doComments=True",
-    "URI, UNICODE-RANGE and FUNCTION-vs-IDENT lexeme classes: finite vm_compute sweep, not a theorem over all lexemes",
+    "proved for all lexemes: IDENT (except no-dash identifiers starting with u/U/an escape), HASH, ATKEYWORD, NUMBER, "
+    "PERCENTAGE, DIMENSION, STRING, COMMENT, S, match operators, CDO, CDC, fast-path and context-free delimiters; "
+    "lexeme_sequence over all adjacent sequences of these",
+    "finite vm_compute sweeps only: URI, UNICODE-RANGE, FUNCTION versus IDENT (and(), u/U/escape-initial identifiers, "
+    "at-keyword respellings, context-dependent delimiters (* / . + - < @ # ~ | ^ $)",
+    "hex_escape_resolved is partial: an escaped backslash directly followed by a hex digit is excluded (refuted, open finding)",
+    "COMMENT values are escape-resolved by design (COMMENT is in the tokenizer's resolved list); the oracle expects that",
 ]
